@@ -388,6 +388,10 @@ private:
     fraction<uint64_t> m_invDeltaTicks;
     //! Current tempo
     fraction<uint64_t> m_tempo;
+    //! Tempo at the begin of the song (restored by a rewind)
+    fraction<uint64_t> m_trackBeginTempo;
+    //! Tempo at the loop begin position (restored by a jump to the loop start)
+    fraction<uint64_t> m_loopBeginTempo;
 
     //! Tempo multiplier factor
     double  m_tempoMultiplier;
